@@ -61,7 +61,7 @@ class EqGen:
         if k == "float": return call("ㅅㅅ", [E(t[1])])
         if k == "inf": return call("ㅂ", ["ㅂ", "ㅅ", "ㅁ"])
         if k == "bool": return call("ㅈㅈ" if t[1] else "ㄱㅈ", [])
-        if k == "str": return call("ㅁㅈ", [E(t[1])])
+        if k == "str": return call("ㅁㅈ", [E(t[1])]) if t[1] != -9 else "(ㅁㅈㅎㄱ)"
         if k == "nil": return call("ㅂㄱ", [])
         if k == "io":      # action values compare by content: kind + arguments (for ㄱㄹ: the bound action, the continuation AND the handler)
             n = E(t[2])
@@ -73,6 +73,14 @@ class EqGen:
     def perturb(s, t):
         """one numeric leaf replaced by a partner that is DIFFERENT but whose host hash collides (or by the equal number of the other kind)"""
         R = s.R; k = t[0]
+        if R.random() < .2:          # KIND swap with the contents kept: the pair must stay unequal (different kinds never compare equal)
+            if k == "list": return ("exc", t[1])
+            if k == "exc": return ("list", t[1])
+            if k == "bool": return ("int", 1 if t[1] else 0) if R.random() < .6 else ("float", 1 if t[1] else 0)
+            if k == "int" and t[1] in (0, 1) and R.random() < .5: return ("bool", t[1] == 1)
+            if k == "nil": return R.choice([("list", []), ("exc", []), ("dict", []), ("str", -9), ("int", 0), ("bool", False)])
+            if k == "dict" and not t[1]: return R.choice([("list", []), ("exc", []), ("nil",)])
+            if k == "str": return ("int", t[1]) if R.random() < .5 else ("list", [("str", t[1])])
         if k in ("int", "float"):
             n = t[1]; c = R.random()
             if c < .35: return (k, n + R.choice([1, -1, 2, -2]) * MP)
@@ -404,9 +412,16 @@ def c17_bits(r, seed, tier, model_ok):
         rc.append(dict(text=f"{x} {call('ㅂ', ['ㅂ', 'ㅅ', 'ㅂㄹ', 'ㄱㄴㄷㄹㅁ'[k]])} ㅎㄴ", trace=False)); rw.append(str(exact_round(q, k)))
         mm, e2 = m, e
         dm.append(f"F\t{k} {'-' if s < 0 else '+'} {mm} {e2}")
+    # INTEGER operands: every rounding is the identity on them, however large (no detour through a double)
+    nint = 0
+    for _ in range(N(tier, 600, 10000)):
+        kind = R.random()
+        n = R.randrange(-50, 51) if kind < .2 else R.choice([1, -1]) * (2 ** R.choice([53, 54, 63, 64, 100, 1024, 1100]) + R.randrange(-3, 4)) if kind < .6 else R.choice([1, -1]) * R.randrange(10 ** 15, 10 ** R.choice([17, 30, 320]))
+        k = R.randrange(0, 5); nint += 1
+        rc.append(dict(text=f"{E(n)} {call('ㅂ', ['ㅂ', 'ㅅ', 'ㅂㄹ', 'ㄱㄴㄷㄹㅁ'[k]])} ㅎㄴ", trace=False)); rw.append(str(n))
     ra = impl_run(rc)
     badr = [dict(program=c["text"], impl=res(o)[:120], model="exact: " + w[:120], which=["rounding"]) for c, o, w in zip(rc, ra, rw) if res(o) != "V " + w]
-    r.slice("roundings_vs_exact", len(rc), len({c["text"] for c in rc}), [rc[0]["text"]], dict(kinds="random mantissas, half-integers, >= 2^52, subnormal-range, small"), "five roundings of exactly constructed doubles vs exact rational arithmetic", badr[:40])
+    r.slice("roundings_vs_exact", len(rc), len({c["text"] for c in rc}), [rc[0]["text"]], dict(kinds="random mantissas, half-integers, >= 2^52, subnormal-range, small", integer_operands=nint), "five roundings of exactly constructed doubles and of integers up to 10^320 vs exact rational arithmetic", badr[:40])
     if model_ok:
         mo = vlib.driver("driver", dm)
         badm = [dict(program=l, impl="exact: " + w, model=o, which=["model-rounding"]) for l, o, w in zip(dm, mo, rw) if o != w]
@@ -435,6 +450,14 @@ def c18_print(r, seed, tier, model_ok):
         # the PRINTED form of the value (what main prints), read back by the host's float(): must be exactly the double that was built
         cases.append(dict(text=x, trace=False, floats=True)); want.append("V " + vlib.canon_float(float(Fraction(s * m) * Fraction(2) ** e))); kinds["float-print"] += 1
         if R.random() < .3: cases.append(dict(text=call("ㅁㄹ", [x, call("ㄷㅂ", [x])]), trace=False, floats=True)); want.append("V [{0}, <예외: [{0}]>]".format(vlib.canon_float(float(Fraction(s * m) * Fraction(2) ** e)))); kinds["float-print-nested"] += 1
+    # values that the host considers equal but that must PRINT differently, printed together and one after the other (any print memo keyed by the
+    # host's equality would merge them): the two zeros, in both orders, nested, as dictionary values and keys
+    z, nz = "(ㄱ ㅅㅅㅎㄴ)", "((ㄱ ㅅㅅㅎㄴ) ㄴㄱ ㄱㅎㄷ)"
+    for _ in range(N(tier, 6, 20)):
+        for t, w in [(z, "0.0"), (nz, "-0.0"), (call("ㅁㄹ", [z, nz]), "[0.0, -0.0]"), (call("ㅁㄹ", [nz, z]), "[-0.0, 0.0]"), (call("ㄷㅂ", [nz, call("ㅁㄹ", [z])]), "<예외: [-0.0, [0.0]]>"),
+                     (call("ㅅㅈ", [E(1), z, E(2), nz]), "{1: 0.0, 2: -0.0}"), (call("ㅅㅈ", [E(1), nz, E(2), z]), "{1: -0.0, 2: 0.0}"), (call("ㅁㄹ", [nz, nz, z, z, nz]), "[-0.0, -0.0, 0.0, 0.0, -0.0]"),
+                     (f"({nz} ㅁㅈㅎㄴ)", "'-0.0'"), (f"({z} ㅁㅈㅎㄴ)", "'0.0'")]:
+            cases.append(dict(text=t, trace=False, floats=False)); want.append("V " + w); kinds["signed-zeros"] += 1
     # dictionaries: all insertion orders
     KEYS = [E(0), E(1), E(-1), E(10), E(2), "(ㄹ ㅅㅅㅎㄴ)", "(ㅁ ㅅㅅㅎㄴ)", "(ㅈㅈㅎㄱ)", "(ㄱㅈㅎㄱ)", "(ㄴ ㅁㅈㅎㄴ)", "(ㅂㄱㅎㄱ)", "(ㄱ ㄴ ㅁㄹㅎㄷ)", "(ㄴ ㄷㅂㅎㄴ)", "(ㄱㅇㄱ ㅎ)", "(ㄴ ㅎ)", "(ㄱ ㅎ)"]
     groups = []
@@ -540,11 +563,26 @@ def c02_callables(r, seed, tier, model_ok):
         add(f"{x} {bl} ㅎㄴ", "E 5,-39", "boolean-arity"); add(f"{x} {y} {x} {bl} ㅎㄹ", "E 5,-39", "boolean-arity")
         for callee in (call("ㅁㄹ", [E(1), E(2)]), str_lit("ab"), cx):
             add(f"(ㄴ ㅁㅈㅎㄴ) {callee} ㅎㄴ", "E 5,0", "index-not-integer"); add(f"ㄱ ㄴ {callee} ㅎㄷ", "E 5,-39", "index-arity")
+    # argument references: a function given k arguments, position p from -k-2 .. k+1 (literal and computed), the reference standing as the body,
+    # as an argument of a user function / Boolean / built-in, inside an inner function (outer arguments), and used twice by the callee
+    for k in range(0, 4):
+        for _ in range(N(tier, 3, 12)):
+            av = R.sample(range(10, 60), k); args = " ".join(E(x) for x in av)
+            for pp in range(-k - 2, k + 2):
+                okp = 0 <= pp < k; w = f"V {av[pp]}" if okp else "E 5,-5"
+                for P, pk in ((E(pp), "literal"), (f"({E(pp - 1)} ㄴ ㄷㅎㄷ)", "computed")):
+                    def fn(body): return f"{args} ({body} ㅎ) ㅎ{E(k)}".strip()
+                    add(fn(f"{P} ㅇㄱ"), w, f"argref-body-{pk}")
+                    add(fn(f"({P} ㅇㄱ) (ㄱ ㅇㄱ ㅎ) ㅎㄴ"), w, f"argref-as-argument-{pk}")
+                    add(fn(f"({P} ㅇㄱ) ㄱ (ㅈㅈㅎㄱ) ㅎㄷ"), w, f"argref-to-boolean-{pk}")
+                    add(fn(f"({P} ㅇㄱ) ㄱ ㄷㅎㄷ"), w, f"argref-to-builtin-{pk}")
+                    add(fn(f"({P} ㅇㄴ ㅎ) ㅎㄱ"), w, f"argref-outer-{pk}")
+                    add(fn(f"({P} ㅇㄱ) (ㄱ ㅇㄱ ㄱ ㅇㄱ ㄷㅎㄷ ㅎ) ㅎㄴ"), (f"V {2 * av[pp]}" if okp else "E 5,-5"), f"argref-used-twice-{pk}")
     a = impl_run(cases)
     bad = [dict(program=c["text"], impl=res(o)[:120], model="documented rule: " + w, which=["call-rule"]) for c, o, w in zip(cases, a, want)
            if not (res(o) == w or (w.startswith("E ") and res(o).split(" @")[0] == w))]
     r.slice("calling_non_functions", len(cases), len({c["text"] for c in cases}), [cases[0]["text"], cases[-1]["text"]], dict(kinds),
-            "Boolean / list / string / bytes / exception / dictionary / complex called with every index in -len-3..len+2, wrong arities and argument kinds, vs the documented rule", bad[:40])
+            "Boolean / list / string / bytes / exception / dictionary / complex called with every index in -len-3..len+2, wrong arities and argument kinds; argument references at every position -k-2..k+1 of a k-argument function in 6 contexts; vs the documented rule", bad[:40])
     if model_ok:
         mc = [c for c in cases if "ㅂㅅㅎㄷ" not in c["text"]]; ma = [o for c, o in zip(cases, a) if "ㅂㅅㅎㄷ" not in c["text"]]
         b = model_run(mc); dist, bad2 = compare(mc, ma, b, fields=("res",))
